@@ -679,7 +679,75 @@ fn main() {
         }));
         samples.push(json!({"family": name, "sample_sequence": alphabet.iter().step_by((alphabet.len() / 3).max(1)).take(3).collect::<Vec<_>>()}));
     }
+    // ---- glob sweep: every pattern of <= 4 tokens against a fixed population of names, through KEYS (BFS machinery:
+    // reply and keyspace against the model) and through SCAN / HSCAN / ZSCAN MATCH (the tree has no SSCAN) (names against the model's glob)
+    let glob_tokens: &[&str] = &["k", "1", "*", "?", "[12]", "[^1]", "[1-3]", "\\x5ck", "["];
+    let glob_names: &[&str] = &["k", "k1", "k2", "k3", "k10", "k12x", "1", "kk", "k[12]", "k[12]x", "[", "k*", "k?1"];
+    let mut glob_patterns: Vec<Vec<usize>> = Vec::new();
+    {
+        let mut cur: Vec<Vec<usize>> = vec![vec![]];
+        for _ in 0..(if args.tier == Tier::Thorough { 5 } else { 4 }) {
+            cur = cur.iter().flat_map(|p| (0..glob_tokens.len()).map(move |t| { let mut x = p.clone(); x.push(t); x })).collect();
+            glob_patterns.extend(cur.iter().cloned());
+        }
+    }
+    let glob_cases = std::sync::atomic::AtomicU64::new(0);
+    if only.is_none() || only.as_deref() == Some("glob") {
+        let seed: Vec<Argv> = vec![
+            resp::line(&format!("MSET {}", glob_names.iter().map(|n| format!("{n} v")).collect::<Vec<_>>().join(" "))),
+            resp::line(&format!("HSET H {}", glob_names.iter().map(|n| format!("{n} v")).collect::<Vec<_>>().join(" "))),
+            resp::line(&format!("ZADD Z {}", glob_names.iter().map(|n| format!("1 {n}")).collect::<Vec<_>>().join(" "))),
+        ];
+        let seen = std::sync::Mutex::new(BTreeSet::new());
+        vh::par::par_map(&glob_patterns, |_, pat| {
+            let text: String = pat.iter().map(|t| glob_tokens[*t]).collect();
+            let shape: String = pat.iter().map(|t| match glob_tokens[*t] { "k" | "1" => "c", "\\x5ck" => "esc", t => t }).collect::<Vec<_>>().join(" ");
+            let pat_bytes = resp::unescape(&text);
+            // KEYS through the model
+            let op = resp::line(&format!("KEYS {text}"));
+            glob_cases.fetch_add(1, std::sync::atomic::Ordering::Relaxed);
+            if let Err((sig, detail)) = run_checked(&seed, &op) {
+                if seen.lock().unwrap().insert(format!("K{shape}")) {
+                    rep.violation(format!("glob: {sig} pattern=[{shape}]"), detail, json!({"family": "glob", "history": seed.iter().map(resp::argv_json).collect::<Vec<_>>(), "op": resp::argv_json(&op)}));
+                }
+                return;
+            }
+            // the MATCH option of the four SCAN commands: one call with a COUNT above the population
+            let mut sys = Sys::new();
+            for h in &seed {
+                sys.apply(h);
+            }
+            let want: BTreeSet<Vec<u8>> = glob_names.iter().map(|n| n.as_bytes().to_vec()).filter(|n| vh::model::glob(&pat_bytes, n)).collect();
+            for (cmd, key, stride) in [("SCAN", None, 1usize), ("HSCAN", Some("H"), 2), ("ZSCAN", Some("Z"), 2)] {
+                glob_cases.fetch_add(1, std::sync::atomic::Ordering::Relaxed);
+                let mut a: Argv = vec![cmd.as_bytes().to_vec()];
+                if let Some(k) = key {
+                    a.push(k.as_bytes().to_vec());
+                }
+                a.extend([b"0".to_vec(), b"MATCH".to_vec(), pat_bytes.clone(), b"COUNT".to_vec(), b"1000".to_vec()]);
+                let r = sys.exec_impl(&a);
+                let got: Option<BTreeSet<Vec<u8>>> = match &r {
+                    RespValue::Array(Some(parts)) if parts.len() == 2 => match &parts[1] {
+                        RespValue::Array(Some(items)) => Some(items.iter().step_by(stride).filter_map(|i| if let RespValue::BulkString(Some(b)) = i { Some(b.clone()) } else { None }).filter(|n| key.is_some() || !matches!(n.as_slice(), b"H" | b"Z")).collect()),
+                        _ => None,
+                    },
+                    _ => None,
+                };
+                if got.as_ref() != Some(&want) {
+                    if seen.lock().unwrap().insert(format!("{cmd}{shape}")) {
+                        rep.violation(
+                            format!("glob: {cmd} MATCH names-differ pattern=[{shape}]"),
+                            format!("names {:?}: `{}` replied {}; Redis's glob matches {:?}", glob_names, resp::show_argv(&a), resp::show(&r), want.iter().map(|n| resp::esc(n)).collect::<Vec<_>>()),
+                            json!({"family": "glob", "history": seed.iter().map(resp::argv_json).collect::<Vec<_>>(), "op": resp::argv_json(&a)}),
+                        );
+                    }
+                }
+            }
+        });
+    }
     let coverage = json!({
+        "glob_sweep": {"patterns": glob_patterns.len(), "cases": glob_cases.load(std::sync::atomic::Ordering::Relaxed), "tokens": glob_tokens, "names": glob_names,
+            "rule": "every pattern of <=4 (thorough 5) tokens over {literal k, literal 1, *, ?, [12], [^1], [1-3], an escaped k, a lone [} against 13 names (incl. names that contain the metacharacters literally): KEYS against the reference model (reply and keyspace), and SCAN / HSCAN / ZSCAN with MATCH and a COUNT above the population against the model's glob"},
         "states": total_states,
         "transitions": total_trans,
         "traces_validated_against_impl": total_trans,
